@@ -239,6 +239,7 @@ class Intervals:
         self._place_cache = {}
         self._ptr_cache = {}
         self._uses = None
+        self._written = None
         self.thresholds = self._collect_thresholds()
         self._run()
 
@@ -322,6 +323,12 @@ class Intervals:
                             res = self._ptr_target(a, depth + 1)
                 elif rv[0] in ("ref", "raw"):
                     res = self.resolve_place(rv[2], depth + 1)
+                elif rv[0] == "use" and op_place(rv[1]) is not None and op_place(rv[1])[1] and self._is_ref_local(l):
+                    # a pointer loaded from memory (`_s = (*self).data`): it points at `*(that place)` as long as the
+                    # place holding the pointer is never written in this function
+                    r0 = self.resolve_place(op_place(rv[1]), depth + 1)
+                    if r0 is not None and r0[2] and r0[1] and self._never_written(r0[0], r0[1]):
+                        res = (r0[0], tuple(r0[1]) + ("*",), True)
                 elif rv[0] == "use" or (rv[0] == "cast" and str(rv[1]).startswith("PointerCoercion")):
                     src = op_place(rv[1] if rv[0] == "use" else rv[2])
                     if src is not None and not src[1]:
@@ -331,6 +338,84 @@ class Intervals:
                             res = (src[0], ("*",), True)
         self._ptr_cache[l] = res
         return res
+
+    def _never_written(self, root, path):
+        """no statement of this body can write the place (root, path): no store / mutable borrow / call destination
+        whose place overlaps it, and `root` (if a `&mut`) is never handed to a call or reborrowed as a whole"""
+        if self._written is None:
+            w = []
+            whole = set()
+            b = self.body
+            self._written = (w, whole)      # set first: resolve_place below may recurse into pointer loads
+            for blk in b.blocks:
+                if blk.cleanup:
+                    continue
+                for st in blk.stmts:
+                    if st[0] != "A":
+                        continue
+                    if st[1][1]:
+                        w.append(st[1])
+                    rv = st[2]
+                    if rv[0] in ("ref", "raw") and ((rv[1] == "mut") if rv[0] == "ref" else ("Mut" in str(rv[1]))):
+                        w.append(rv[2])
+                t = blk.term
+                if t.kind == "call":
+                    if t.dest[1]:
+                        w.append(t.dest)
+                    for a, aty in zip(t.args, t.d.get("atys") or []):
+                        l = op_local(a)
+                        if l is not None and (aty.startswith("&mut") or aty.startswith("*mut")):
+                            whole.add(l)
+        w, whole = self._written
+        if root in whole:
+            return False
+        n = len(path)
+        for pl in w:
+            if pl[0] == root or True:
+                r = self._resolve_nofollow(pl)
+                if r is None:
+                    return False
+                if r[0] != root:
+                    continue
+                m = min(n, len(r[1]))
+                if tuple(r[1][:m]) == tuple(path[:m]):
+                    return False
+        return True
+
+    def _resolve_nofollow(self, p):
+        """like resolve_place but through `ref`/pointer-copy temporaries only (no memory loads): used to decide what a
+        store can touch"""
+        l, projs = p[0], p[1]
+        for _ in range(12):
+            if not (projs and projs[0] == "*") or (0 < l <= self.body.argc):
+                break
+            sd = self.body.single_def(l)
+            if sd is None or isinstance(sd[2], Term):
+                break
+            rv = sd[2]
+            if rv[0] in ("ref", "raw"):
+                l, projs = rv[2][0], list(rv[2][1]) + list(projs[1:])
+                continue
+            if rv[0] == "use" and op_place(rv[1]) is not None and not op_place(rv[1])[1]:
+                l = op_place(rv[1])[0]
+                continue
+            if rv[0] == "use" and op_place(rv[1]) is not None and op_place(rv[1])[1]:
+                # pointer loaded from memory: what it points to lies behind that place
+                src = op_place(rv[1])
+                l, projs = src[0], list(src[1]) + list(projs)
+                continue
+            break
+        path = []
+        for e in projs:
+            if e == "*":
+                path.append("*")
+            elif isinstance(e, list) and e[0] == "f":
+                path.append(("f", e[1]))
+            elif isinstance(e, list) and e[0] == "d":
+                path.append(("d", e[1]))
+            else:
+                break
+        return (l, tuple(path))
 
     def resolve_place(self, p, depth=0):
         """(root local, path tuple, exact) for a MIR place, following reborrows of single-assignment pointer
